@@ -18,6 +18,9 @@ CFG = dict(
         seq("asan_kolkata", "asan", SRC, Q_ASAN, T_ASAN, params={0: 19800, 1: 16}, env=IST),
         seq("rel_utc", "rel", SRC, Q_REL, T_REL, params={0: 0, 1: 64}, env=UTC),
         seq("rel_kolkata", "rel", SRC, Q_REL, T_REL, params={0: 19800, 1: 64}, env=IST),
+        # a zone with daylight saving (US rules as a POSIX TZ string): every text names UTC or carries its offset, so nothing
+        # may depend on it; the local-accessor oracle is off in this stage (p3)
+        seq("asan_dst", "asan", SRC, Q_ASAN, T_ASAN, params={0: 0, 1: 16, 3: 1}, env={"TZ": "EST5EDT,M3.2.0,M11.1.0"}),
         # reentrancy: 2..8 threads run PRNG-derived workloads on this module at once; each thread's digest of everything it
         # observed must equal the digest of the same workload run alone (harness/mt_pure.c); p0 = rounds per thread
         seq("mt_tsan", "tsan", "mt_pure.c", 32, 3200, mode="date", params={0: 150}, wrap=True, leak=False),
